@@ -656,6 +656,7 @@ func (g *Gen) FooterCase() *Case {
 	c.Ops = append(c.Ops, Op{Code: OpReload, Slot: last, Kind: g.R.Intn(2)})
 	for s := 0; s <= last+1; s++ {
 		c.Ops = append(c.Ops, Op{Code: OpFooter, Slot: s})
+		c.Ops = append(c.Ops, Op{Code: OpContainer, Slot: s})
 	}
 	return c
 }
